@@ -11,9 +11,12 @@ lookup    directory trees in which x.h is present/absent in each of {cwd, includ
           line) publishes read_<loc> under #ifdef: the database shows WHICH copy was read and
           WHETHER it was treated as the user's own.  parse_file repeats the "which copy" part.
           Oracle: the rule of the property, transcribed (expected_lookup).
-explicit  a header found through -I and ALSO named on the command line under every spelling
-          (./, //, d/.., directory symlink, file symlink, absolute) x both command-line orders x
-          {plain, #pragma once, guard}: it is the user's own.
+explicit  a header that is named on the command line AND reached through an #include of another
+          command-line file: {reached first through the include, named first} x where the include
+          is resolved {working directory, includer's directory, -I, -S with "..", -S with <..>;
+          the -I/-S directory itself plain or a symlink} x every spelling (plain ./ d/.. // file
+          symlink, through a symlinked directory, absolute) of BOTH the include directive and the
+          command-line argument x {plain, #pragma once, guard}: it is the user's own.
 once      a guarded / #pragma once header included twice through every ordered PAIR of spellings
           (x.h ./x.h d/../x.h .//x.h file-symlink dir-symlink absolute, symlink-then-..), also with
           the header itself named on the command line: contents processed once, exported once, no
@@ -274,58 +277,122 @@ def file_spellings(t):
             ("linkdotdot", "ds/../../I1/x.h")]
 
 
+# Where the #include that reaches the header is resolved, and the spelling alphabet relative to
+# that place.  I1 also holds  sub/  (real directory),  dl -> .  and  xl.h -> x.h .
+BASE_SPELLINGS = [("plain", "x.h"), ("dot", "./x.h"), ("dotdot", "sub/../x.h"), ("dslash", ".//x.h"),
+                  ("filelink", "xl.h"), ("dirlink", "dl/x.h")]
+# where -> (directory option, its spelling, include form)
+EXPLICIT_WHERE = {
+    "cwd": None,                       # "I1/..." spelled from the working directory (file_spellings)
+    "includer": None,                  # I1/inc_<spelling>.h includes it relative to its own directory
+    "I": ("-I", "I1", "q"), "I-link": ("-I", "lnk", "q"),
+    "Sq": ("-S", "I1", "q"), "Sq-link": ("-S", "lnk", "q"),
+    "Sa": ("-S", "I1", "a"), "Sa-link": ("-S", "lnk", "a"),
+}
+
+
+def explicit_inc_spellings(t, where):
+    if where == "cwd":
+        return [(k, v) for k, v in file_spellings(t) if k != "linkdotdot"]
+    sp = list(BASE_SPELLINGS)
+    if where.startswith("Sa"):
+        # "//" inside <...> starts a comment for this preprocessor (only "..." protects it)
+        sp = [(k, v) for k, v in sp if k != "dslash"]
+    return sp
+
+
+def extend_spell_tree_for_explicit(t):
+    os.makedirs(os.path.join(t, "I1", "sub"), exist_ok=True)
+    if not os.path.lexists(os.path.join(t, "I1", "dl")):
+        os.symlink(".", os.path.join(t, "I1", "dl"))
+    for k, v in BASE_SPELLINGS:
+        write(os.path.join(t, "I1", "inc_%s.h" % k), '#include "%s"\n' % v)
+
+
 def run_explicit(b, t, outdir, c, tag):
-    sp = dict(file_spellings(t))[c["spell"]]
-    files = ["mq.h", sp] if c["order"] == "m-first" else [sp, "mq.h"]
+    """interrogate [dir option] <m, X in the given order>: m.h reaches header X through an #include
+    resolved at c["where"] and spelled c["inc"]; X is also named on the command line as c["cmd"]."""
+    cmdsp = dict(file_spellings(t))[c["cmd"]]
+    incsp = dict(explicit_inc_spellings(t, c["where"]))[c["inc"]]
+    w = EXPLICIT_WHERE[c["where"]]
+    opts = []
+    if c["where"] == "cwd":
+        line = '#include "%s"\n' % incsp
+    elif c["where"] == "includer":
+        line = '#include "I1/inc_%s.h"\n' % c["inc"]
+    else:
+        opts = [w[0], w[1]]
+        line = inc_line(w[2], incsp)
+    name = "m_%s.h" % tag
+    text = line + markers(["I1"])
+    write(os.path.join(t, name), text)
+    files = [name, cmdsp] if c["order"] == "m-first" else [cmdsp, name]
     od = os.path.join(outdir, "%s.in" % tag)
-    cmd = [b["interrogate"], "-od", od, "-module", "m", "-library", "l", "-v", "-I", "I1"] + files
+    cmd = [b["interrogate"], "-od", od, "-module", "m", "-library", "l", "-v"] + opts + files
     r = tools.run(cmd, cwd=t, b=b)
     try:
-        text = open(od).read()
+        dbtext = open(od).read()
         os.unlink(od)
     except OSError:
-        text = ""
-    read, own = observe_names(text)
-    return {"rc": r.rc, "read": read, "own": own, "stderr": r.err[-600:], "cmd": cmd, "cwd": t}
+        dbtext = ""
+    os.unlink(os.path.join(t, name))
+    read, own = observe_names(dbtext)
+    return {"rc": r.rc, "read": read, "own": own, "stderr": r.err[-600:], "cmd": cmd, "cwd": t,
+            "includer": text}
 
 
 def judge_explicit(c, o):
+    """The literal rule: a file named on the command line is the user's own -- however the
+    command line and the #include that reaches it spell its path, wherever that #include was
+    resolved, and whichever of the two comes first."""
     bad = []
     if o["rc"] != 0:
         bad.append("exit status %s" % o["rc"])
+    if "Cannot find" in o["stderr"]:
+        bad.append("the include was not found")
     if o["read"] != ["i1"]:
         bad.append("copy read: expected ['i1'], observed %s" % o["read"])
     if o["own"] != ["i1"]:
-        bad.append("file named on the command line as %s: expected own_i1 exported, observed %s" % (c["spell"], o["own"] or "none"))
+        bad.append("header named on the command line (as %s) and reached through an include resolved at %s "
+                   "(spelled %s): expected own_i1 exported, observed %s"
+                   % (c["cmd"], c["where"], c["inc"], o["own"] or "none"))
     if re.search(r"\berror\b", o["stderr"]):
         bad.append("error diagnostic")
     return bad
 
 
+def explicit_key(c):
+    return "explicit/%s/%s/%s/inc=%s/cmd=%s" % (c["variant"], c["order"], c["where"], c["inc"], c["cmd"])
+
+
 def explicit_family(ck, b, thorough):
     outdir = ck.scratch("explicit-out")
-    n = 0
     jobs = []
     for variant in ("plain", "once", "guard"):
         t = make_spell_tree(ck.scratch("explicit-" + variant), variant)
-        for spell, _ in file_spellings(t):
-            for order in ("m-first", "x-first"):
-                jobs.append((t, {"fam": "explicit", "variant": variant, "spell": spell, "order": order}))
+        extend_spell_tree_for_explicit(t)
+        for order in ("m-first", "x-first"):
+            for where in EXPLICIT_WHERE:
+                for inc, _ in explicit_inc_spellings(t, where):
+                    for cmd, _ in file_spellings(t):
+                        jobs.append((t, {"fam": "explicit", "variant": variant, "order": order,
+                                         "where": where, "inc": inc, "cmd": cmd}))
 
     def one(job):
         t, c = job
-        key = "explicit/%s/%s/%s" % (c["variant"], c["spell"], c["order"])
-        o = run_explicit(b, t, outdir, c, key.replace("/", "_"))
-        return key, t, c, o
+        key = explicit_key(c)
+        tag = re.sub(r"[^A-Za-z0-9]+", "_", key)
+        return key, t, c, run_explicit(b, t, outdir, c, tag)
     for key, t, c, o in pmap(one, jobs):
         bad = judge_explicit(c, o)
-        n += 1
-        ck.note(key, nontrivial=c["spell"] != "plain", outcome="explicit:" + ("ok" if not bad else "bad"),
+        # non-trivial: the two mentions of the file are not both the plain spelling
+        ck.note(key, nontrivial=(c["inc"], c["cmd"]) != ("plain", "plain"),
+                outcome="explicit:%s:%s" % (c["where"], "ok" if not bad else "bad"),
                 family="explicit", sample={"case": c, "observed": {k: o[k] for k in ("rc", "read", "own")}})
         if bad:
             ck.fail(key, "; ".join(bad), {"case": c, "observed": "; ".join(bad), "run": o},
                     confirm=lambda t=t, c=c: bool(judge_explicit(c, run_explicit(b, t, outdir, c, "confirm"))))
-    return n
+    return len(jobs)
 
 
 # ----------------------------------------------------------------------------- once-only
@@ -700,6 +767,7 @@ def replay(ck, b):
         print("expected:", e)
     elif fam == "explicit":
         t = make_spell_tree(ck.scratch("replay-tree"), c["variant"])
+        extend_spell_tree_for_explicit(t)
         o = run_explicit(b, t, out, c, "replay")
         bad = judge_explicit(c, o)
     elif fam == "once":
@@ -760,14 +828,15 @@ def main():
              "norm = the path resolves and standardize() changes the string",
         exhaustive=True,
         bound="lookup: 2^%d trees x all arrangements of all subsets of the -I/-S arguments x 2 forms "
-              "x -noangles x %s includers%s; once: all ordered pairs of 7 spellings x 3 modes x 2 protections + 8 single spellings; "
+              "x -noangles x %s includers%s; explicit: 2 orders x 8 resolution places x 6-7 include spellings x 8 command-line spellings x 3 protections; once: all ordered pairs of 7 spellings x 3 modes x 2 protections + 8 single spellings; "
               "norm: all strings of <= %d components over 7 symbols x 3 prefixes x trailing slash"
               % (6 if thorough else 5, 3 if thorough else 2, " x -srcdir" if thorough else "",
                  5 if thorough else 4),
         assumptions=["symbolic links, '.', '..' and repeated slashes are the spellings explored; hard "
                      "links, bind mounts and case-insensitive file systems are not",
-                     "a header named on the command line AND found only through -S is left unjudged "
-                     "(the two ownership clauses of the property contradict each other there)",
+                     "'own exactly when named on the command line or found in the working directory' is "
+                     "read as: being named on the command line suffices, also when an #include reaches "
+                     "the same file through -S ('never through -S' speaks of files that are not named)",
                      "make_relative_to is judged only in its documented use (both paths made canonical "
                      "first); its result on non-canonical input is recorded but not judged"],
         min_nontrivial=2 if ck.only else 500)
